@@ -10,10 +10,10 @@
 package c04
 
 import (
-	"net"
 	"context"
 	"encoding/json"
 	"fmt"
+	"net"
 	"regexp"
 	"sort"
 	"strings"
